@@ -26,7 +26,9 @@ ASSUMPTIONS = [
     "float32 coordinates (1e-6 relative) are multiplied by image gradients",
     "agreement with ITK is claimed only at target samples whose continuous source index lies in [0, n-1] on every axis; "
     "nearest-neighbour ties are excluded (the number excluded is reported)",
-    "grids have at least 2 samples per axis in the theorems (n = 1 axes are exercised by the correspondence only)",
+    "grids have at least 2 samples per axis in the theorems and streams; one-sample axes (single-slice volumes) are exercised by "
+    "the `singleton` oracle against the in-plane ITK resampling: with align_corners=True the normalisation 2/(n-1) is undefined "
+    "and the code returns padding values (known finding F-05b, six keys)",
 ]
 TRUSTED = ["Model/{TorchPrim,Sample}.lean hand transcription of core/image.py grid_sample, data/image.py ImageBatch.sample, "
            "modules/sample.py SampleImage._matrix / AlignImage / TransformImage (identity transform), core/grid.py Grid.points",
